@@ -1,5 +1,7 @@
 import St4sd.Lemmas.C02f
+import St4sd.Lemmas.C02g
 import St4sd.Model.CtrlEngine
+import St4sd.Model.CtrlSplit
 /-!
 # C02 — Components reach the final state the documented rules prescribe, whatever the event order
 
@@ -512,6 +514,195 @@ example : quiescent wfRep (run wfRep opsRepA) = true ∧
 example : quiescent wfRep (run wfRep opsRepB) = true ∧
     (List.range 2).map (fun c => ((run wfRep opsRepB).comp c).ctrl) = [some .shutdown, some .shutdown] := by
   decide +kernel
+
+
+/-! ## G. Repeating components end only after their producers: nobody is left waiting
+
+The engine of a repeating component relaunches its task until `ComponentState` tells it
+`notify_all_producers_finished` (or until `kill()`); `Op.exit c` is not enabled before (`canExit`).
+`ComponentState.stageIn` subscribes to the producers that are alive at stage-in time
+(`CompS.watch`); the engine is told when all of THEM have ended (`notified`).  Part A speaks about states
+without a live task; the theorems below show that a live repeating task whose producers are all final
+can always exit, so "no live task" and "no enabled task exit" coincide at quiescence. -/
+
+/-- G1. A launched repeating component that was not asked to finish has been told that its producers
+finished as soon as all of them are in a final state - whenever it was staged in: before, while or
+after they ended (also when ALL of them had ended before: the subscription list is then empty). -/
+theorem repeating_engine_is_told (wf : Wf) (ops : List Op) (c : Nat)
+    (hrep : (wf.cdef c).isRepeat = true) (hr : ((run wf ops).comp c).ran = true)
+    (hfc : ((run wf ops).comp c).finishCalled = false)
+    (hp : ∀ p ∈ (wf.cdef c).preds, ((run wf ops).comp p).ctrl.isSome = true) :
+    notified (run wf ops) c = true :=
+  notified_of_final (run_winv wf ops) c hr hrep hfc hp
+
+/-- G2. … and it is not told early: told ⇒ every producer is final. -/
+theorem repeating_engine_is_not_told_early (wf : Wf) (ops : List Op) (c : Nat)
+    (hn : notified (run wf ops) c = true) :
+    ∀ p ∈ (wf.cdef c).preds, ((run wf ops).comp p).ctrl.isSome = true :=
+  final_of_notified (run_winv wf ops) c hn
+
+/-- G3. A live task whose producers are all final can exit (repeating or not, asked to finish or not). -/
+theorem live_task_with_final_producers_can_exit (wf : Wf) (ops : List Op) (c : Nat)
+    (hr : ((run wf ops).comp c).ran = true) (hex : ((run wf ops).comp c).exit = none)
+    (hp : ∀ p ∈ (wf.cdef c).preds, ((run wf ops).comp p).ctrl.isSome = true) :
+    canExit wf (run wf ops) c = true :=
+  canExit_of_final (run_inv wf ops) (run_winv wf ops) c hr hex hp
+
+/-- G4. A task exit that is not enabled does nothing. -/
+theorem disabled_exit_is_noop (wf : Wf) (s : St) (c : Nat) (h : canExit wf s c = false) :
+    step wf s (.exit c) = s := by
+  simp [step, taskExit, h]
+
+/-- G5. Strengthening of A: when no task CAN exit (live repeating engines that wait for their
+producers allowed), nothing is queued and the scheduler has nothing to do, every component is
+recorded in `comp_done` in a final state: no ordering leaves an observer waiting for ever. -/
+theorem quiescentR_all_final (wf : Wf) (h : wf.WF) (ops : List Op)
+    (hq : quiescentR wf (run wf ops) = true) :
+    ∀ c, c < wf.n → (run wf ops).done c = true ∧ ((run wf ops).comp c).ctrl.isSome = true :=
+  quiescentR_all_final' h (run_inv wf ops) (run_winv wf ops) hq
+
+/-- G6. So the two notions of quiescence coincide on reachable states. -/
+theorem quiescentR_iff_quiescent (wf : Wf) (h : wf.WF) (ops : List Op) :
+    quiescentR wf (run wf ops) = true ↔ quiescent wf (run wf ops) = true := by
+  constructor
+  · intro hq
+    have hall := quiescentR_all_final wf h ops hq
+    simp only [quiescentR, comps, Bool.and_eq_true, List.all_eq_true, List.mem_range,
+      Bool.not_eq_true'] at hq
+    simp only [quiescent, comps, Bool.and_eq_true, List.all_eq_true, List.mem_range, Bool.not_eq_true',
+      Bool.and_eq_false_iff]
+    refine ⟨⟨hq.1.1, fun c hc => ?_⟩, hq.2⟩
+    have := ((run_inv wf ops).ci c).k10 (hall c hc).2
+    cases hx : ((run wf ops).comp c).exit with
+    | none => simp [hx] at this
+    | some r => right; rfl
+  · intro hq
+    simp only [quiescent, comps, Bool.and_eq_true, List.all_eq_true, List.mem_range,
+      Bool.not_eq_true'] at hq
+    simp only [quiescentR, comps, Bool.and_eq_true, List.all_eq_true, List.mem_range, Bool.not_eq_true']
+    refine ⟨⟨hq.1.1, fun c hc => ?_⟩, hq.2⟩
+    have := hq.1.2 c hc
+    simp only [canExit]
+    rw [this]; rfl
+
+/-! ### non-vacuity of part G
+
+Stage 0: `slow` (0).  Stage 1: `subject` (1, no inputs: launched while stage 0 is current) and a repeating
+`observer` (2) of both.  In `opsObsLate` both producers have ended before the observer is staged in: its
+subscription list is empty and its engine is told at once.  In `opsObsEarly` the subject is still running
+when the observer is staged in (after `slow` ended): it subscribes to the subject only. -/
+
+def wfObs : Wf :=
+  { n := 3, lastStage := 1, order := [2, 0, 1],
+    cdef := fun c => match c with
+      | 0 => {}
+      | 1 => { stage := 1 }
+      | 2 => { stage := 1, preds := [0, 1], isRepeat := true }
+      | _ => {} }
+
+theorem wfObs_wf : wfObs.WF := by
+  refine ⟨?_, ?_, ?_⟩
+  · intro c
+    rcases c with _ | _ | _ | c <;> simp [wfObs]
+  · intro c hc; simp [wfObs] at hc ⊢; omega
+  · intro c hc; simp [wfObs] at hc ⊢; omega
+
+def opsObsLate : List Op :=
+  [.sched, .sched, .exit 1, .pm 1, .fin 1, .exit 0, .pm 0, .fin 0, .next, .sched]
+
+def opsObsEarly : List Op :=
+  [.sched, .sched, .exit 0, .pm 0, .fin 0, .next, .sched]
+
+example : ((run wfObs opsObsLate).comp 2).ran = true ∧ ((run wfObs opsObsLate).comp 2).watch = some [] ∧
+    notified (run wfObs opsObsLate) 2 = true ∧ canExit wfObs (run wfObs opsObsLate) 2 = true := by
+  decide +kernel
+
+example : ((run wfObs opsObsEarly).comp 2).ran = true ∧ ((run wfObs opsObsEarly).comp 2).watch = some [1] ∧
+    notified (run wfObs opsObsEarly) 2 = false ∧ canExit wfObs (run wfObs opsObsEarly) 2 = false ∧
+    quiescentR wfObs (run wfObs opsObsEarly) = false := by decide +kernel
+
+/-- the exit of the observer is a no-op while the subject runs … -/
+example : ((run wfObs (opsObsEarly ++ [.exit 2])).comp 2).exit = none := by decide +kernel
+/-- … and enabled once the subject is final (not only once the controller has recorded it) -/
+example : canExit wfObs (run wfObs (opsObsEarly ++ [.exit 1, .pm 1])) 2 = true ∧
+    (run wfObs (opsObsEarly ++ [.exit 1, .pm 1])).done 1 = false := by decide +kernel
+
+example : quiescentR wfObs (run wfObs (opsObsLate ++ [.exit 2, .pm 2, .fin 2])) = true ∧
+    (List.range 3).map (fun c => ((run wfObs (opsObsLate ++ [.exit 2, .pm 2, .fin 2])).comp c).ctrl) =
+      [some .finished, some .finished, some .finished] := by decide +kernel
+
+/-- G1 and G5 instantiate -/
+example : notified (run wfObs opsObsLate) 2 = true :=
+  repeating_engine_is_told wfObs opsObsLate 2 rfl (by decide +kernel) (by decide +kernel)
+    (by intro p hp; simp [wfObs] at hp; rcases hp with rfl | rfl <;> decide +kernel)
+
+example : ∀ c, c < 3 → (run wfObs (opsObsLate ++ [.exit 2, .pm 2, .fin 2])).done c = true ∧
+    ((run wfObs (opsObsLate ++ [.exit 2, .pm 2, .fin 2])).comp c).ctrl.isSome = true :=
+  quiescentR_all_final wfObs wfObs_wf _ (by decide +kernel)
+
+/-! ## H. The external stage-completion hook
+
+`hrun` (`Model/CtrlSplit.lean`) = the operations of `run` plus `HOp.hook k`: the package's `IsStageComplete`
+hook answered `True` for stage k and the closure of `_observe_completionCheck` ran (fake-finish what is not
+staged in, `_stopComponents` the rest: `stopStage`).  Parts A, B, E2 and G5 hold for every such history, with
+any number of hook firings.  Before the repair `fixes/C02-completion-hook-unstaged.diff` the closure called
+`_stopComponents` only and A was FALSE: `Witness.C02.old_hook_strands_unstaged_component`. -/
+
+theorem hook_quiescentR_all_final (wf : Wf) (h : wf.WF) (ops : List HOp)
+    (hq : quiescentR wf (hrun wf ops) = true) :
+    ∀ c, c < wf.n → (hrun wf ops).done c = true ∧ ((hrun wf ops).comp c).ctrl.isSome = true :=
+  quiescentR_all_final' h (hrun_inv wf ops).1 (hrun_inv wf ops).2 hq
+
+/-- … final states stay final across hook firings … -/
+theorem hook_final_is_permanent (wf : Wf) (ops ops' : List HOp) (c : Nat) (f : Fin3) :
+    ((hrun wf ops).comp c).ctrl = some f → ((hrun wf (ops ++ ops')).comp c).ctrl = some f := by
+  intro hc
+  have := (hrun_from_inv (wf := wf) ops' (hrun wf ops) (hrun_inv wf ops).1 (hrun_inv wf ops).2).2.2.ctrl c f hc
+  simpa [hrun, List.foldl_append] using this
+
+/-- … and are the component's own outcome or shut-down (B) -/
+theorem hook_final_is_own_or_shutdown (wf : Wf) (ops : List HOp) (c : Nat) (f : Fin3) :
+    ((hrun wf ops).comp c).ctrl = some f → f = .shutdown ∨ f = own wf c :=
+  ((hrun_inv wf ops).1.ci c).b1 f
+
+/-- A for histories with hook firings -/
+theorem hook_quiescent_all_final (wf : Wf) (h : wf.WF) (ops : List HOp)
+    (hq : quiescent wf (hrun wf ops) = true) :
+    ∀ c, c < wf.n → (hrun wf ops).done c = true ∧ ((hrun wf ops).comp c).ctrl.isSome = true := by
+  refine hook_quiescentR_all_final wf h ops ?_
+  simp only [quiescent, comps, Bool.and_eq_true, List.all_eq_true, List.mem_range,
+    Bool.not_eq_true'] at hq
+  simp only [quiescentR, comps, Bool.and_eq_true, List.all_eq_true, List.mem_range, Bool.not_eq_true']
+  refine ⟨⟨hq.1.1, fun c hc => ?_⟩, hq.2⟩
+  have := hq.1.2 c hc
+  simp only [canExit]
+  rw [this]; rfl
+
+/-- the split system of C01 runs the same hook: `hrun` is `srun` on the embedded history -/
+theorem hrun_eq_srun (wf : Wf) (ops : List HOp) : (srun wf (ops.map HOp.toS)).base = hrun wf ops := by
+  unfold srun hrun
+  have : ∀ (s : SSt), ((ops.map HOp.toS).foldl (sstep wf) s).base = ops.foldl (hstep wf) s.base := by
+    induction ops with
+    | nil => intro s; rfl
+    | cons o os ih =>
+      intro s
+      simp only [List.map_cons, List.foldl_cons]
+      rw [ih]
+      cases o <;> rfl
+  exact this sinit
+
+/-- histories without hook firings are the histories of `run` -/
+theorem hrun_extends_run (wf : Wf) (ops : List Op) : hrun wf (ops.map HOp.op) = run wf ops := by
+  unfold hrun run
+  generalize init = s
+  induction ops generalizing s with
+  | nil => rfl
+  | cons o os ih => simp only [List.map_cons, List.foldl_cons]; exact ih _
+
+/-- non-vacuity: the hook fires while component 1 of `C02W.wfH`-like chain `0 → 1` waits for 0 -/
+example : quiescentR { n := 2, cdef := fun i => if i = 1 then { preds := [0] } else {}, order := [0, 1] }
+    (hrun { n := 2, cdef := fun i => if i = 1 then { preds := [0] } else {}, order := [0, 1] }
+      [.op .sched, .hook 0, .op (.exit 0), .op (.fin 0), .op (.fin 1), .op .sched]) = true := by decide +kernel
 
 /-! ## F. The exit reason of an execution is the one the engine reports (`St4sd/Model/CtrlEngine.lean`)
 
